@@ -242,12 +242,11 @@ def infeasible_get_none(p):
     nones = [t[1] for t, v in p.cons if t[0] == 'discr' and t[1][0] == 'get' and v == 0]
     for g in nones:
         for t, v in p.cons:
-            if t[0] == 'bin' and t[1] == 'Ge' and v == 0 and t[2] == g[2] and t[3][0] == 'len' and \
-                    affine.canon_coll(t[3][1]) == affine.canon_coll(g[1]):
-                return True
-            if t[0] == 'bin' and t[1] == 'Lt' and v != 0 and t[2] == g[2] and t[3][0] == 'len' and \
-                    affine.canon_coll(t[3][1]) == affine.canon_coll(g[1]):
-                return True
+            if t[0] != 'bin' or t[1] not in ('Lt', 'Le'):
+                continue
+            for ln in (t[2], t[3]):
+                if ln[0] == 'len' and affine.canon_coll(ln[1]) == affine.canon_coll(g[1]) and absint.holds(p.cons, '<', g[2], ln):
+                    return True
     return False
 
 
